@@ -601,6 +601,25 @@ void PLSBetasCoeff(PLSMODEL *model, size_t nlv, dvector *betas)
   */
   size_t i, j;
   matrix *W, *P_, *B_;
+
+  /* A null latent variable (all weights 0: LVCalc found the response or X exhausted, e.g. a response that is
+   * an exact linear function of few predictors) adds nothing to the predictions (t = 0, b = 0) but makes P'W
+   * singular. Every latent variable after a null one is null too: use the ones before it. */
+  if(nlv > model->xweights->col)
+    nlv = model->xweights->col;
+  for(j = 0; j < nlv; j++){
+    double ww = 0.f;
+    for(i = 0; i < model->xweights->row; i++)
+      ww += square(model->xweights->data[i][j]);
+    if(!(ww > 0.f))
+      break;
+  }
+  nlv = j;
+  if(nlv == 0){
+    DVectorResize(betas, model->xweights->row);
+    return;
+  }
+
   NewMatrix(&W, model->xweights->row, nlv);
   NewMatrix(&P_, nlv, model->xweights->row);
   NewMatrix(&B_, nlv, 1);;
